@@ -58,8 +58,8 @@ def join_first_line(kind, prio, ws) -> str:
 
 
 @st.composite
-def step(draw, allow_page_ops=True, allow_paths=True):
-    k = draw(st.integers(0, 42 if allow_page_ops else 39))
+def step(draw, allow_page_ops=True, allow_paths=True, allow_break=True):
+    k = draw(st.integers(0, 42 if allow_break else 39))
     sel = {"p": draw(st.integers(0, 50)), "n": draw(st.integers(0, 50))}
     if k == 40 or k == 41:
         return {"op": "break_page", **sel}
